@@ -479,12 +479,29 @@ def gen_same(tier, seed, env_text):
                  {"f": "K.c", "args": [d1], "ret": d2, "ys": []}]
         cases.append({"type": "same", "calls": calls, "k": 3, "rw": "NONE", "variants": variants(3, 4 if q else 8),
                       "family": "shared parameter name, different TypedDicts"})
+    # one long run (a single flush of > 1000 distinct traces through one connection) against the same traces
+    # recorded as several short runs
+    atoms = [absmodel.T("atom", a) for a in ("int", "float", "bool", "bytes", "NoneType")] + [absmodel.T("str", "s")]
+    shapes = [absmodel.T("tuple", "", list(c)) for n in (1, 2, 3, 4) for c in itertools.product(atoms, repeat=n)]
+    for g in range(1 if q else 6):
+        n = 1150 if q else rng.choice([520, 1010, 1530])
+        vals = rng.sample(shapes, n)
+        calls = [{"f": ("f1", "K.m", "K.s")[i % 3], "args": [v], "ret": NONE, "ys": []} for i, v in enumerate(vals)]
+        order = list(range(n))
+        vs = [{"order": order, "split": [], "seed": 0}]
+        for j in range(2 if q else 3):
+            o = list(order)
+            rng.shuffle(o)
+            vs.append({"order": o, "split": sorted(rng.sample(range(1, n), 2 + 3 * j)), "seed": j + 1})
+        cases.append({"type": "same", "calls": calls, "k": 0, "rw": "NONE", "variants": vs,
+                      "family": "one long run against several short runs (> 500 / > 1000 traces in one flush)"})
     plan = {}
     for c in cases:
         plan[c["family"]] = plan.get(c["family"], 0) + 1
     for i, c in enumerate(cases):
         c["tid"] = i + 1
-    return cases, [{"family": k, "cases": v, "stub_processes": v * (4 if q else 6)} for k, v in plan.items()]
+    return cases, [{"family": k, "cases": v, "stub_processes": sum(len(c["variants"]) for c in cases if c["family"] == k)}
+                   for k, v in plan.items()]
 
 
 MINE = {"C01": {"EndToEndSound", "AnnotationResolves"}, "C14": {"OrderAndProcessFree", "TypedDictClassesOrderFree"},
@@ -498,7 +515,7 @@ def causes_of(rec):
     if {"monkeytype", "DUMMY_NAME"} & unres:
         out.append("typeddict_not_replaced_below_a_generic_the_rewriter_does_not_visit")
     if set(rec.get("unres_td", [])) - {"monkeytype", "DUMMY_NAME"}:
-        out.append("typeddict_field_annotation_keeps_module_prefix")
+        out.append("typeddict_field_annotation_does_not_resolve")
     if rec.get("dup_td"):
         out.append("typeddict_class_name_hint_collision")
     return out or ["other"]
